@@ -50,14 +50,18 @@ Fixpoint parse_lu (v6 : bool) (fuel : nat) (d : bytes) : res (list plroute) :=
   end.
 Definition parse_lu_all (v6 : bool) (d : bytes) : res (list plroute) := parse_lu v6 (S (length d)) d.
 
-(** MpReachNLRI.construct, SAFI 4: None when the NLRI comes out empty *)
-Definition reachlu_construct (v6 : bool) (ip : N) (rs : list lroute) : res (option bytes) :=
-  let nh := if v6 then be 16 ip else be 4 ip in
+(** MpReachNLRI.construct, SAFI 4: None when the NLRI comes out empty.  The next hop is
+    netaddr.IPAddress(text).packed: 4 or 16 octets by the version of the ADDRESS ([nh6]), whatever
+    the family [v6] of the routes (IPv6 next hop for IPv4 labeled routes: RFC 8950) *)
+Definition reachlu_construct_x (v6 nh6 : bool) (ip : N) (rs : list lroute) : res (option bytes) :=
+  let nh := if nh6 then be 16 ip else be 4 ip in
   bind (construct_lu v6 false rs) (fun nlri =>
   match nlri with
   | [] => Ok None
   | _ => bind (reach_attr (vpn_afi v6) SAFI_MPLS_LABEL (len nh) nh nlri) (fun b => Ok (Some b))
   end).
+(** next hop of the routes' own family *)
+Definition reachlu_construct (v6 : bool) := reachlu_construct_x v6 v6.
 
 Definition reachlu_result := (option addr * list plroute)%type.
 
